@@ -281,9 +281,14 @@ def partStep (boundary : Bytes) (total : Nat)
     match stageCR pB with
     | .err => .err
     | .panic s => .panic s
-    | .ok (none, pC) => k pC.2 acc br
+    | .ok (none, pC) =>
+      -- since F74: a part with a Content-Type line but no Content-Range line, and a line that belongs to no part
+      -- (neither blank nor a delimiter), are errors (before: skipped silently, the part was dropped)
+      if !ct.isEmpty then .err
+      else if !Utf8R.allWs pC.1 && !containsSub pC.1 boundary then .err
+      else k pC.2 acc br
     | .ok (some (st, en, size), pC) =>
-      if ct.isEmpty then k pC.2 acc br
+      if ct.isEmpty then .err        -- since F74: a Content-Range line without a Content-Type line
       else
         match bodyLoop boundary total (pC.2.length + 1) pC.2 [] br with
         | .err => .err
